@@ -98,7 +98,7 @@ func (c *Ctx) ord11() {
 						found = true
 					}
 				}
-				if found && e.Kind == pathx.KStore && e.Fn == rs && pathx.RoleOfAddr(e.Addr).Key() == "Client.bigMessage" && pathx.IsNilConst(e.Val) {
+				if found && e.Kind == pathx.KStore && c.inRegion(rs, e) && pathx.RoleOfAddr(e.Addr).Key() == "Client.bigMessage" && pathx.IsNilConst(e.Val) {
 					cleared = true
 				}
 			}
